@@ -839,6 +839,8 @@ static void* reb_simulation_integrate_raw(void* args){
     reb_communication_mpi_distribute_particles(r);
 #endif // MPI
 
+    // The server thread must not serialize the simulation while the set-up below (which includes a user heartbeat) modifies it.
+    reb_server_mutex_lock(r);
     if (thread_info->tmax != r->t){
         int dt_sign = (thread_info->tmax > r->t) ? 1.0 : -1.0; // determine integration direction
         r->dt = copysign(r->dt, dt_sign);
@@ -854,6 +856,7 @@ static void* reb_simulation_integrate_raw(void* args){
         r->status = REB_STATUS_RUNNING;
     }
     reb_run_heartbeat(r);
+    reb_server_mutex_unlock(r);
 #ifdef __EMSCRIPTEN__
     double t0 = emscripten_performance_now();
 #endif
